@@ -1,4 +1,4 @@
-(* Libfuncs/ApCost.v -- per-libfunc obligations of C17 / C04 over the GENERATED code objects:
+(* Paths/ApCost.v -- per-libfunc obligations of C17 / C04 over the GENERATED code objects:
    for every Sierra invoke statement of every wrapper whose CASM is call-free, every control path
    of the statement's code range exits at the code of one of its branch targets, moves ap by
    exactly that branch's declared ApChange::Known k, and executes steps / range checks worth at
